@@ -387,6 +387,9 @@ func (n *vNode) close() {
 // VerifC11_Close: closing one node closes exactly its subtree.
 func VerifC11_Close() {
 	ready := zzverif.NondetInt("rootready", 0, 1) == 1
+	if zzverif.Param("FIXREADY", 0) == 1 && !ready {
+		zzverif.Assume(false)
+	}
 	t := newTreeR(8, ready)
 	// shape: solver-chosen from a small grammar (<= 5 nodes below the root publisher)
 	kinds := []string{"sub", "fsub", "pub", "fpub", "mon"}
@@ -426,7 +429,7 @@ func VerifC11_Close() {
 		zzverif.Assume(false) // nothing is published before the root is ready
 	}
 	// closing during a refilter: filtered nodes get a new filter just before
-	if zzverif.NondetInt("refilter", 0, 1) == 1 {
+	if zzverif.NondetInt("refilter", 0, 1-zzverif.Param("NOREFILTER", 0)) == 1 {
 		for _, nd := range t.nodes {
 			if nd.refilt != nil {
 				zzverif.Assert(nd.refilt(filter.Not(filter.All())) == nil, "harness/refilter") // a different filter that still accepts everything
